@@ -3,8 +3,8 @@
    repeated), the per-file grouping of the -json document (r.lintErrors[le.Token.File]), and the
    exit status of the other sub-commands on a file with a syntax error.  No proofs here. *)
 From Coq Require Import List Bool Arith.
-From Coq Require Import Strings.Byte.
-From Falco Require Import Base.Bytes Model.Verdict.
+From Coq Require Import Strings.String Strings.Byte.
+From Falco Require Import Base.Bytes Gen.LintGen Model.Verdict.
 Import ListNotations.
 Open Scope list_scope.
 
@@ -18,6 +18,28 @@ Definition flag_eqb (a b : flag) : bool :=
 Inductive yverbose := YNone | YWarning | YInfo | YOther.
 
 Definition has (f : flag) (fl : list flag) : bool := existsb (flag_eqb f) fl.
+
+(* the command-line spelling of the flags and the values of the yaml key: regenerated from the struct tags of
+   config/config.go and from the switch over c.Linter.VerboseLevel in config.New (Gen/LintGen.v) *)
+Definition flag_of_name (n : list byte) : option flag :=
+  if bytes_eqb n flag_json then Some FJson
+  else if bytes_eqb n flag_verbose_info then Some FVV
+  else if bytes_eqb n flag_verbose_warning then Some FV
+  else None.
+
+Definition f_verbose_warning : list byte := Eval compute in list_byte_of_string "VerboseWarning"%string.
+Definition f_verbose_info : list byte := Eval compute in list_byte_of_string "VerboseInfo"%string.
+
+Definition yverbose_of (v : option (list byte)) : yverbose :=
+  match v with
+  | None => YNone
+  | Some w =>
+      match find (fun p => bytes_eqb (fst p) w) yaml_verbose_levels with
+      | Some (_, fld) => if bytes_eqb fld f_verbose_warning then YWarning
+                         else if bytes_eqb fld f_verbose_info then YInfo else YOther
+      | None => YOther
+      end
+  end.
 
 (* config.New: VerboseWarning / VerboseInfo are set by the flag OR by the yaml level; NewRunner: info wins *)
 Definition cfg_of (yv : yverbose) (rules : list (rule * list byte)) (fl : list flag) : cfg :=
